@@ -66,6 +66,24 @@ def _int_render(c, proxy):
     return memo[key]
 
 
+D = z3.Range("0", "9")
+# what str()/repr() of a finite Python float looks like: positional  D+.D+  or exponent form  D(.D+)?e[+-]DD+
+FLOAT_REPR_ABS = z3.Union(z3.Concat(z3.Plus(D), z3.Re("."), z3.Plus(D)),
+                          z3.Concat(D, z3.Option(z3.Concat(z3.Re("."), z3.Plus(D))), z3.Re("e"), z3.Union(z3.Re("+"), z3.Re("-")), D, z3.Plus(D)))
+
+
+def _float_render(c, proxy):
+    """z3 String that str(x) / repr(x) denotes for a symbolic finite float x (memoised): constrained to the lexical shape
+    of Python's float repr; its value is x by the contract float(repr(x)) == x (used by the float() shim)"""
+    memo = c.memo.setdefault("float_render", {})
+    key = proxy.e.get_id()
+    if key not in memo:
+        s = z3.String(f"floatrepr!{len(memo)}")
+        c.add(z3.InRe(s, z3.Concat(z3.Option(z3.Re("-")), FLOAT_REPR_ABS)))
+        memo[key] = s
+    return memo[key]
+
+
 def term_of(s):
     """z3 String term of a Python string that may contain placeholder tokens, of a SymStr or of a rendered proxy"""
     c = ctx()
@@ -73,6 +91,8 @@ def term_of(s):
         return s.e
     if isinstance(s, SymInt):
         return _int_render(c, s)
+    if isinstance(s, SymReal):
+        return _float_render(c, s)
     if isinstance(s, Sym):
         raise Unsupported(f"string rendering of {type(s).__name__}")
     parts = []
